@@ -206,6 +206,12 @@ def gen_project(rng, stream="structured", n_tasks=None, facilities=None, fs_only
             "adopt_ids": rng.random() < 0.12, "int_rules": rng.random() < 0.12,    # priority rules given by their numbers        # workers / facilities created without team_id / workplace_id (the container adopts them)
             "rank": rng.sample(range(8), 8)[:nt] if nt <= 8 else None,
             "crank": rng.sample(range(8), 8)[:nc] if nc <= 8 else None}
+    # ID scheme (harness/sim.py make_ids): plain ints per class, or tasks / components built without an ID
+    r = rng.random()
+    if not case["same_ids"] and r < 0.14:
+        case["ids"] = "num" if r < 0.07 else "uuid"
+    if rng.random() < 0.1:
+        case["builder"] = "extend"      # wired with extend_* / add_worker / add_facility / set_parent_* instead of append_* and constructor lists
     return case
 
 
